@@ -26,3 +26,10 @@ Proof.
   - apply N.eqb_eq in E. subst. apply nget_nset_same.
   - apply N.eqb_neq in E. now apply nget_nset_other.
 Qed.
+
+Lemma nset_nset_same {A} k (a b : A) l : nset k a (nset k b l) = nset k a l.
+Proof.
+  induction l as [|[k0 a0] t IH]; cbn.
+  - now rewrite N.eqb_refl.
+  - destruct (k0 =? k) eqn:E; cbn; rewrite E; [reflexivity|now rewrite IH].
+Qed.
